@@ -12,7 +12,6 @@ package api
 // per-connection ghost counters: callbacks made for a connection (synchronous + scheduled)
 //@ ghost field ShipConnection.$reports int
 //@ ghost field ShipConnection.$setup int
-//@ ghost field ShipConnection.$idReports int
 //@ ghost field ShipConnection.$closeCalled bool
 //@ ghost field ShipConnection.$closeScheduled bool
 //@ ghost field ShipConnection.$everApproved bool
@@ -32,9 +31,12 @@ package api
 //@ iface ShipConnectionInfoProviderInterface.HandleConnectionClosed(conn, done)
 //@   ensures conn.$reports == old(conn.$reports) + 1
 //@   modifies conn.$reports
+//@ ghost global $idReports map[string]int
+//@ ghost global $lastId map[string]string
 //@ iface ShipConnectionInfoProviderInterface.ReportServiceShipID(ski, id)
-//@ iface ShipConnectionInfoProviderInterface.SetupRemoteDevice(ski, writeI)
-//@   ensures result != nil
+//@   ensures $idReports[ski] == old($idReports[ski]) + 1 && $lastId[ski] == id
+//@   modifies $idReports[ski], $lastId[ski]
+// SetupRemoteDevice: see ship/verif_contracts.go (its precondition speaks about the connection's state)
 
 //@ iface WebsocketDataWriterInterface.InitDataProcessing(reader)
 //@ iface WebsocketDataWriterInterface.WriteMessageToWebsocketConnection(msg)
